@@ -189,7 +189,7 @@ func workers(a args, op func(r *hx.RNG, w int)) {
 }
 
 func (p *pipeline) readOp(r *hx.RNG) {
-	switch r.Intn(9) {
+	switch r.Intn(10) {
 	case 0:
 		_ = len(p.lr.Dump())
 	case 1:
@@ -208,6 +208,8 @@ func (p *pipeline) readOp(r *hx.RNG) {
 		_ = len(p.lr.Print())
 	case 8:
 		_ = p.outs[r.Intn(len(p.outs))].RouteCount() + p.ins[r.Intn(len(p.ins))].RouteCount()
+	case 9:
+		_ = len(p.lr.LPM(pfx(r.Intn(nPfx)))) + len(p.lr.GetLonger(bnet.NewPfx(bnet.IPv4FromOctets(10, 0, 0, 0), 8).Dedup()))
 	}
 }
 
